@@ -68,6 +68,9 @@ pub const VALID_EXPRS: &[&str] = &[
     "<math><mi>AB</mi></math>",
     "<math><mi>ABC</mi><mo>=</mo><mi>DE</mi><mo>+</mo><mi mathvariant='bold'>XY</mi></math>",
     "<math><mtext>AB</mtext><mo>&#x2225;</mo><mtext>CD</mtext></math>",
+    // 53: tables with three rows (two row separators in the braille codes that mark row ends)
+    "<math><mo>(</mo><mtable><mtr><mtd><mn>1</mn></mtd></mtr><mtr><mtd><mn>2</mn></mtd></mtr><mtr><mtd><mn>3</mn></mtd></mtr></mtable><mo>)</mo></math>",
+    "<math><mi>M</mi><mo>=</mo><mrow><mo>[</mo><mtable><mtr><mtd><mi>a</mi></mtd><mtd><mn>0</mn></mtd></mtr><mtr><mtd><mi>m</mi></mtd><mtd><mi>b</mi></mtd></mtr><mtr><mtd><mn>12</mn></mtd><mtd><mi>c</mi></mtd></mtr></mtable><mo>]</mo></mrow></math>",
 ];
 
 /// Index of an expression with a character that only the *full* Unicode tables contain
